@@ -204,7 +204,7 @@ class CIMNamespaceProvider(InstanceWriteProvider):
                             "Cannot create namespace {0!A}. This namespace "
                             "already exists and was created with the "
                             "CIM_Namespace provider.",
-                            namespace))
+                            new_namespace))
 
         # Create the CIM instance for the new namespace in the CIM repository,
         # by delegating to the default provider method.
